@@ -161,11 +161,48 @@ def check_2d(ctx):
     return [(by[i], cl) for i, cl in rej if by[i]["rel"]["kind"] == "recall"], len(rec.events)
 
 
+def check_global_attr_precedence(ctx):
+    """documented in load_config_from_xarray: 'If a global attribute exists ... ignore any config at the variable level'.
+    A Dataset carrying the configuration as global attribute AND unrelated per-variable QC attributes must load exactly
+    like the global attribute alone (validated with Trace_Config; the spec does not know about the decoy attributes)."""
+    import json as _json
+    import numpy as np
+    import xarray as xr
+    import config_checks as cc
+    import qcexec  # noqa: F401
+    from ioos_qc.config import Config
+    r = ctx.rng
+    events = []
+    for n in range(ctx.pick(120, 1000)):
+        cfg = cc.rand_cfg(r)
+        layout = r.choice([la for la in cc.LAYOUTS if cc.expressible(cfg, la, "xr_global")])
+        d = cc.layout_dict(cfg, layout, "str")
+        decoy = {"qc%d" % k: (("time",), np.zeros(3), {"ioos_qc_module": "qartod", "ioos_qc_test": t, "ioos_qc_target": tgt,
+                                                       "ioos_qc_config": _json.dumps(p)})
+                 for k, (t, tgt, p) in enumerate([("spike_test", "a", {"suspect_threshold": 9}), ("gross_range_test", "zz", {"fail_span": [0, 1]}),
+                                                  ("flat_line_test", "temp", {"tolerance": 1, "suspect_threshold": 1, "fail_threshold": 2})])}
+        ds = xr.Dataset(decoy, attrs={"ioos_qc_config": _json.dumps(d)})
+        e = {"id": n + 1, "cid": n, "ev": "load", "cfg": cfg, "layout": layout, "carrier": "xr_global", "exc": "", "calls": [],
+             "ncalls": 0, "rt": {"exc": "", "calls": []}}
+        try:
+            c = Config(ds)
+            e["calls"], e["ncalls"] = cc.project_calls(c.calls), len(c.calls)
+            e["rt"]["calls"] = e["calls"]
+        except Exception as ex:  # noqa: BLE001
+            e["exc"] = type(ex).__name__
+        events.append(e)
+    import tv
+    rej, _ = tv.validate(events, "Trace_Config", "X_glob")
+    by = {e["id"]: e for e in events}
+    return [(by[i], cl) for i, cl in rej if cl != "c07_roundtrip"], len(events)
+
+
 def run():
     ctx = core.Ctx("X-extra", "quick", 20261002)
     rc = 0
     for name, fn in (("Config container API (ConfigOps.tla)", check_configops), ("utils.check_timestamps (TimeUtil.tla)", check_timestamps),
-                     ("2-D inputs keep their shape (Trace_Qc, recall)", check_2d)):
+                     ("2-D inputs keep their shape (Trace_Qc, recall)", check_2d),
+                     ("global ioos_qc_config attribute wins over per-variable attributes (Trace_Config)", check_global_attr_precedence)):
         owned, n = fn(ctx)
         ctx.log("%s: %d events, %d rejected clauses" % (name, n, len(owned)))
         for e, cl in owned[:6]:
